@@ -1,8 +1,8 @@
 #!/bin/bash
 # Runs, for every kept seeded change, the quick check of its own property (plus any extra
-# properties listed in seeded/<id>/also) against /repo with the change applied, and writes
-# seeded/RESULTS.tsv: id, property, exit status, violation classes seen.
-# /repo is restored after every run. usage: tools/seeded_matrix.sh [id ...]
+# properties listed in seeded/<id>/also) against a scratch worktree of /repo HEAD with the change
+# applied, and writes seeded/RESULTS.tsv: id, property, exit status, violation classes seen.
+# usage: tools/seeded_matrix.sh [id ...]   (no ids = all, RESULTS.tsv rewritten)
 cd "$(dirname "$0")/.." || exit 2
 ids=${*:-$(ls seeded | grep -v RESULTS)}
 out=seeded/RESULTS.tsv
@@ -12,14 +12,17 @@ for id in $ids; do
   prop=$(python3 -c "import json;print(json.load(open('seeded/$id/meta.json'))['property'])")
   props="$prop $(cat seeded/$id/also 2>/dev/null)"
   for p in $props; do
-    if [ -n "$(git -C /repo status --porcelain)" ]; then echo "/repo dirty"; exit 2; fi
-    git -C /repo apply "$PWD/seeded/$id/patch.diff" || { echo -e "$id\t$p\tPATCH-FAILS" >> $out; continue; }
-    log=$(mktemp)
-    SIMCHECK_EVIDENCE_DIR=$(mktemp -d) timeout 1500 ./simcheck run $p --tier quick > $log 2>&1; rc=$?
-    git -C /repo checkout -- .
-    classes=$(grep "violation class" $log | sed 's/.*violation class "\([^"]*\)": \([0-9]*\) runs/\1(\2)/' | head -6 | tr '\n' ' ')
-    echo -e "$id\t$p\texit=$rc\t$classes" >> $out
-    echo -e "$id\t$p\texit=$rc\t$classes"
-    rm -f $log
+    wt=$(mktemp -d /tmp/seedwt.XXXXXX); ev=$(mktemp -d /tmp/seedev.XXXXXX); log=$(mktemp)
+    git -C /repo worktree add -q --detach "$wt" HEAD
+    if git -C "$wt" apply "$PWD/seeded/$id/patch.diff"; then
+      SIMCHECK_REPO_DIR="$wt" SIMCHECK_EVIDENCE_DIR="$ev" timeout 1500 ./simcheck run $p --tier quick > $log 2>&1; rc=$?
+      classes=$(grep "violation class" $log | sed 's/.*violation class "\([^"]*\)": \([0-9]*\) runs/\1(\2)/' | head -6 | tr '\n' ' ')
+      line="$id\t$p\texit=$rc\t$classes"
+    else
+      line="$id\t$p\tPATCH-FAILS"
+    fi
+    sed -i "/^$id\t$p\t/d" $out
+    echo -e "$line" >> $out; echo -e "$line"
+    git -C /repo worktree remove --force "$wt" >/dev/null 2>&1; rm -rf "$wt" "$ev" "$log"
   done
 done
